@@ -39,3 +39,7 @@ package data
 //@ iface Unroll(x) returns (r)
 //@   ensures len(r) == x.len && forall(k, 0, x.len, r[k] == x.at(k))
 //@   assigns nothing
+
+//@ iface Maximum(x) returns (r)
+//@   ensures forall(k, 0, x.len, r >= x.at(k))
+//@   assigns nothing
